@@ -217,7 +217,9 @@ var $go = (fun, args) => {
             $goroutine.exit = true;
             finished = true;
         } catch (err) {
-            if (!$goroutine.exit) {
+            /* runtime.Goexit() unwinds with null; a panic raised by a deferred call during Goexit that nothing
+               recovered is a real error. */
+            if (!$goroutine.exit || err !== null) {
                 throw err;
             }
             finished = true;
